@@ -139,3 +139,152 @@ def grad_jacobian(vc):
     vc.ensure('shape (nS*nP, nS)', isinstance(m, SMatrix) and z3.And(to_num(m.rows) == nS * nP, to_num(m.cols) == nS))
     vc.ensure('grad_jacobian[k*nS+i, j] = D(grad[i,k], s_j)',
               z3.ForAll([k2, i2, j2], z3.Implies(rng, z3.Select(m.arr, k2 * nS + i2, j2) == D(GRD(i2, k2), s_sym(j2)))))
+
+
+@contract('C03/get_diff_jacobian_eqn', ['C03', 'C13'], DETM + 'get_diff_jacobian_eqn', max_paths=4000)
+def diff_jacobian(vc):
+    """diff_jacobian[e*nS + a, b] = D(D(ode_e, s_a), s_b): one nS x nS block per equation, stacked in order"""
+    from pyvc.lib_sympy import SMatList, ZERO
+    mv = ModelView(vc)
+    nS = mv.nS
+    with_ode(vc, mv)
+    F = 'pygom.model.deterministic:DeterministicOde.get_diff_jacobian_eqn'
+    e2, a, b = z3.Int('de'), z3.Int('da'), z3.Int('db')
+    st = {}
+    dd = lambda e_, a_, b_: D(D(ODE(e_), s_sym(a_)), s_sym(b_))
+    ab = z3.And(a >= 0, a < nS, b >= 0, b < nS)
+
+    def before0(it, view):
+        view.set('diffJac', SMatList(0, nS, nS, lambda e_, a_, b_: ZERO))
+
+    def inplace_flag(it, view):
+        mv.obj.fields['_isDifficult'] = it.ctx.fresh_bool('isDifficult')
+    vc.loop(F, 0, lambda view, e: [('one finished block per processed equation',
+                                    z3.And(to_num(view['diffJac'].length) == e,
+                                           z3.ForAll([e2, a, b], z3.Implies(z3.And(ab, e2 >= 0, e2 < e), view['diffJac'].cell(e2, a, b) == dd(e2, a, b)))))],
+            before=before0, modifies=('diffJac',), inplace=(inplace_flag,), ghost=lambda it, view, e: st.__setitem__('e', e))
+    Jc = lambda view, a_, b_: z3.Select(view['J'].arr, a_, b_)
+    vc.loop(F, 1, lambda view, i: [('rows before i of the current block', z3.And(to_num(view['J'].rows) == nS, to_num(view['J'].cols) == nS,
+                                                                                 z3.ForAll([a, b], z3.Implies(z3.And(ab, a < i), Jc(view, a, b) == dd(st['e'], a, b)))))],
+            modifies=('J',), inplace=(inplace_flag,), ghost=lambda it, view, i: st.__setitem__('i', i))
+    vc.loop(F, 2, lambda view, j: [('rows before i and the first j cells of row i', z3.And(to_num(view['J'].rows) == nS, to_num(view['J'].cols) == nS,
+                                   z3.ForAll([a, b], z3.Implies(z3.And(ab, z3.Or(a < st['i'], z3.And(a == st['i'], b < j))), Jc(view, a, b) == dd(st['e'], a, b)))))],
+            modifies=('J',), inplace=(inplace_flag,))
+    vc.loop(F, 3, lambda view, k: [('the first k+1 blocks are stacked in order',
+                                    z3.And(to_num(view['diffJacMatrix'].rows) == (k + 1) * nS, to_num(view['diffJacMatrix'].cols) == nS,
+                                           z3.ForAll([e2, a, b], z3.Implies(z3.And(ab, e2 >= 0, e2 <= k),
+                                                                            z3.Select(view['diffJacMatrix'].arr, e2 * nS + a, b) == view['diffJac'].cell(e2, a, b)))))])
+    ka, ia, kb, ib = z3.Int('ka'), z3.Int('ia'), z3.Int('kb'), z3.Int('ib')
+    inj = z3.Implies(z3.And(ia >= 0, ia < nS, ib >= 0, ib < nS, ka >= 0, kb >= 0, ka * nS + ia == kb * nS + ib), z3.And(ka == kb, ia == ib))
+    vc.ensure('lemma: (e,a) -> e*nS+a is injective on 0<=a<nS', inj)
+    vc.assume(z3.ForAll([ka, ia, kb, ib], inj))
+    out = vc.call(vc.func(F), mv.obj)
+    vc.ensure('returns normally', out.returned)
+    if not out.returned:
+        return
+    m = out.value
+    vc.ensure('shape (nS*nS, nS)', isinstance(m, SMatrix) and z3.And(to_num(m.rows) == nS * nS, to_num(m.cols) == nS))
+    vc.ensure('diff_jacobian[e*nS+a, b] = D(D(ode_e, s_a), s_b)',
+              z3.ForAll([e2, a, b], z3.Implies(z3.And(ab, e2 >= 0, e2 < nS), z3.Select(m.arr, e2 * nS + a, b) == dd(e2, a, b))))
+
+
+def _sim_summaries(vc, mv, with_F=False):
+    i, j = z3.Int('si'), z3.Int('sj')
+    FX = z3.Function('FX', I, I, Expr)
+
+    def scm(it, a_, k_):
+        m = SMatrix(mv.nS, mv.nE, z3.Lambda([i, j], VM(i, j)))
+        mv.obj.fields['_vMat'] = m
+        return m
+
+    def erv(it, a_, k_):
+        m = SMatrix(mv.nE, 1, z3.Lambda([i, j], RATE(i)))
+        mv.obj.fields['_eventRateVector'] = m
+        return m
+
+    def tj(it, a_, k_):
+        m = SMatrix(mv.nE, mv.nE, z3.Lambda([i, j], FX(i, j)))
+        mv.obj.fields['_transitionJacobian'] = m
+        return m
+    vc.summary('pygom.model.base_ode_model:BaseOdeModel.get_StateChangeMatrix', scm)
+    vc.summary('pygom.model.base_ode_model:BaseOdeModel.get_EventRateVector', erv)
+    if with_F:
+        vc.summary('pygom.model.simulate:SimulateOde.get_TransitionJacobian', tj)
+    return FX
+
+
+@contract('C03/get_TransitionJacobian', ['C03'], SIMM + 'get_TransitionJacobian', max_paths=4000)
+def transition_jacobian(vc):
+    """F[i,j] = sum over states k of D(rate_i, s_k) * vMat[k,j], under every valuation"""
+    mv = ModelView(vc)
+    nS, nE = mv.nS, mv.nE
+    _sim_summaries(vc, mv)
+    F = 'pygom.model.simulate:SimulateOde.get_TransitionJacobian'
+    PSF = z3.Function('PSF', I, I, I, R)
+    i2, j2, k2 = z3.Int('fi'), z3.Int('fj'), z3.Int('fk')
+    vc.assume(z3.ForAll([i2, j2], PSF(i2, j2, 0) == 0, patterns=[PSF(i2, j2, 0)]))
+    vc.assume(z3.ForAll([i2, j2, k2], z3.Implies(k2 >= 0, PSF(i2, j2, k2 + 1) == PSF(i2, j2, k2) + val(D(RATE(i2), s_sym(k2))) * val(VM(k2, j2))),
+                        patterns=[PSF(i2, j2, k2 + 1)]))
+    st = {}
+    cell = lambda view, a, b: val(z3.Select(view['F'].arr, a, b))
+    ij = z3.And(i2 >= 0, i2 < nE, j2 >= 0, j2 < nE)
+
+    def inplace_flag(it, view):
+        mv.obj.fields['_isDifficult'] = it.ctx.fresh_bool('isDifficult')
+
+    def expect(view, i, j, k):
+        return z3.ForAll([i2, j2], z3.Implies(ij, cell(view, i2, j2) == z3.If(z3.Or(i2 < i, z3.And(i2 == i, j2 < j)), PSF(i2, j2, nS),
+                                                                              z3.If(z3.And(i2 == i, j2 == j), PSF(i2, j2, k), 0.0))))
+    shape = lambda view: z3.And(to_num(view['F'].rows) == nE, to_num(view['F'].cols) == nE)
+    vc.loop(F, 0, lambda view, i: [('rows before i are complete, the rest is zero', z3.And(shape(view), expect(view, i, z3.IntVal(0), z3.IntVal(0))))],
+            modifies=('F',), inplace=(inplace_flag,), ghost=lambda it, view, i: st.__setitem__('i', i))
+    vc.loop(F, 1, lambda view, j: [('... and the first j cells of row i', z3.And(shape(view), expect(view, st['i'], j, z3.IntVal(0))))],
+            modifies=('F',), inplace=(inplace_flag,), ghost=lambda it, view, j: st.__setitem__('j', j))
+    vc.loop(F, 2, lambda view, k: [('... and the first k states of cell (i,j)', z3.And(shape(view), expect(view, st['i'], st['j'], k)))],
+            modifies=('F',), inplace=(inplace_flag,))
+    out = vc.call(vc.func(F), mv.obj)
+    vc.ensure('returns normally', out.returned)
+    if not out.returned:
+        return
+    m = out.value
+    vc.ensure('shape (nE, nE)', isinstance(m, SMatrix) and z3.And(to_num(m.rows) == nE, to_num(m.cols) == nE))
+    vc.ensure('F[i,j] = sum_k D(rate_i, s_k) * vMat[k,j] under every valuation',
+              z3.ForAll([i2, j2], z3.Implies(ij, val(z3.Select(m.arr, i2, j2)) == PSF(i2, j2, nS))))
+
+
+def _mean_var(name, square):
+    @contract('C03/' + name, ['C03'], SIMM + name, max_paths=4000)
+    def run(vc):
+        mv = ModelView(vc)
+        nE = mv.nE
+        FX = _sim_summaries(vc, mv, with_F=True)
+        F = 'pygom.model.simulate:SimulateOde.' + name
+        PSM = z3.Function('PSM', I, I, R)
+        i2, j2 = z3.Int('mi'), z3.Int('mj')
+        term = (val(FX(i2, j2)) * val(FX(i2, j2)) * val(RATE(j2))) if square else (val(FX(i2, j2)) * val(RATE(j2)))
+        vc.assume(z3.ForAll([i2], PSM(i2, 0) == 0, patterns=[PSM(i2, 0)]))
+        vc.assume(z3.ForAll([i2, j2], z3.Implies(j2 >= 0, PSM(i2, j2 + 1) == PSM(i2, j2) + term), patterns=[PSM(i2, j2 + 1)]))
+        st = {}
+        var = 'sigma2' if square else 'mu'
+        cell = lambda view, a: val(z3.Select(view[var].arr, a, 0))
+        shape = lambda view: z3.And(to_num(view[var].rows) == nE, to_num(view[var].cols) == 1)
+
+        def expect(view, i, j):
+            return z3.ForAll([i2], z3.Implies(z3.And(i2 >= 0, i2 < nE), cell(view, i2) == z3.If(i2 < i, PSM(i2, nE), z3.If(i2 == i, PSM(i2, j), 0.0))))
+        vc.loop(F, 0, lambda view, i: [('entries before i are complete, the rest is zero', z3.And(shape(view), expect(view, i, z3.IntVal(0))))],
+                modifies=(var,), ghost=lambda it, view, i: st.__setitem__('i', i))
+        vc.loop(F, 1, lambda view, j: [('... and the first j terms of entry i', z3.And(shape(view), expect(view, st['i'], j)))], modifies=(var,))
+        out = vc.call(vc.func(F), mv.obj)
+        vc.ensure('returns normally', out.returned)
+        if not out.returned:
+            return
+        m = out.value
+        vc.ensure('one entry per event', isinstance(m, SMatrix) and z3.And(to_num(m.rows) == nE, to_num(m.cols) == 1))
+        vc.ensure('entry i = sum_j F[i,j]%s * rate_j under every valuation' % ('^2' if square else ''),
+                  z3.ForAll([i2], z3.Implies(z3.And(i2 >= 0, i2 < nE), val(z3.Select(m.arr, i2, 0)) == PSM(i2, nE))))
+    run.__doc__ = "%s[i] = sum_j F[i,j]%s * rate_j" % (name, '^2' if square else '')
+    return run
+
+
+_mean_var('get_TransitionMean', False)
+_mean_var('get_TransitionVar', True)
